@@ -243,10 +243,10 @@ Lemma dir_unreg_comp_none st c :
 Proof.
   simpl. intros HI. unfold dir_unregister_computation. simpl.
   destruct (zmemk c (g_comps (n_dir st))) eqn:Ek; [|split; [auto|]; split; [auto|]; split; [auto|]; simpl; intros ? ? []].
-  pose proof (unreg_comp_O (n_disc st) c None true) as HO.
-  assert (HV : forall c', c' <> c -> vc (rS (d_unregister_computation (n_disc st) c None true)) c' = vc (n_disc st) c')
+  pose proof (unreg_comp_O (n_disc st) c None false) as HO.
+  assert (HV : forall c', c' <> c -> vc (rS (d_unregister_computation (n_disc st) c None false)) c' = vc (n_disc st) c')
     by (intros; now apply unreg_comp_other).
-  destruct (d_unregister_computation (n_disc st) c None true) as [[[d1 o1] e1] x1]. simpl in *.
+  destruct (d_unregister_computation (n_disc st) c None false) as [[[d1 o1] e1] x1]. simpl in *.
   unfold I1, Dc in *. simpl. repeat split.
   - intros c' g H. destruct (Z.eq_dec c' c) as [->|Hne]; [rewrite zlookup_zdel_same in H; discriminate|].
     rewrite zlookup_zdel_other in H by auto. rewrite HV; auto.
@@ -369,9 +369,9 @@ Proof.
   - destruct (dir_unpubcomp2 st s c ag) as (E2 & _). split; [|rewrite E2; auto].
     simpl. unfold dir_unregister_computation. destruct (stale_unpub st c ag); auto.
     destruct (zmemk c (g_comps (n_dir st))); auto.
-    assert (HV : forall c', c' <> c -> vc (rS (d_unregister_computation (n_disc st) c None true)) c' = vc (n_disc st) c')
+    assert (HV : forall c', c' <> c -> vc (rS (d_unregister_computation (n_disc st) c None false)) c' = vc (n_disc st) c')
       by (intros; now apply unreg_comp_other).
-    destruct (d_unregister_computation (n_disc st) c None true) as [[[d1 o1] e1] x1]. simpl in *.
+    destruct (d_unregister_computation (n_disc st) c None false) as [[[d1 o1] e1] x1]. simpl in *.
     unfold I1, Dc in *. simpl. intros c' g' H.
     destruct (Z.eq_dec c' c) as [->|Hne]; [rewrite zlookup_zdel_same in H; discriminate|].
     rewrite zlookup_zdel_other in H by auto. rewrite HV; auto.
